@@ -188,6 +188,13 @@ pub fn alphabet(kind: TreeKind, n: usize, tick: u32, reduced: bool) -> Vec<Proto
             a.push(Proto::Op(Op::EvNew(id)));
             a.push(Proto::Op(Op::EvCancel(id)));
         }
+        if kind == TreeKind::C01 {
+            // re-pricing and re-sizing through process_event (C01 covers re-priced orders)
+            a.push(Proto::Op(Op::EvModify(id, Some(prices[0]), None)));
+            a.push(Proto::Op(Op::EvModify(id, Some(prices[prices.len() - 1]), None)));
+            a.push(Proto::ModRel(id, None, 0, true));
+            a.push(Proto::ModRel(id, None, -1, true));
+        }
         if kind == TreeKind::C06 || kind == TreeKind::C04 || kind == TreeKind::C13 {
             let mut popts: Vec<Option<u32>> = vec![None];
             for &p in &prices { popts.push(Some(p)); }
@@ -266,7 +273,7 @@ pub fn family(name: &str) -> Family {
     let base = Family { name: "C01", wide: false, ties: false, modify: false, toggles: false, reload: false,
         offgrid: false, malformed: false, redundant: false, events: true };
     match name {
-        "C01" => base,
+        "C01" => Family { name: "C01", modify: true, ..base },
         "C02" => Family { name: "C02", modify: true, toggles: true, reload: true, ..base },
         "C03" => Family { name: "C03", modify: true, toggles: true, ..base },
         "C04" => Family { name: "C04", modify: true, toggles: true, redundant: true, reload: true, ..base },
